@@ -86,7 +86,7 @@ class C01(Prop):
     ID = 'C01'
     EXTRA_PROPS = ('Integration',)   # cross-model corollaries (C01×C02, C07×C03, C04×C03, C16×C02) audited with this check
     N_QUICK = 6500
-    N_THOROUGH = 60000
+    N_THOROUGH = 48000
     CASE_TIMEOUT = 120
     RULE = ('random hubs of 2..6 register-like ports (number/boolean, per-call read/write latencies from '
             '{0,1,7,20,120} ms, 20 % with mutually inverse write/read transforms, 15 % sampling the register at the start '
@@ -173,6 +173,14 @@ class C01(Prop):
                               {'type': 'boolean', 'reg': 0, 'rlat': [7], 'wlat': [20], 'expr': ['GT', ['p', 1], ['lit', 3]]}],
                     'bursts': [[[20, 'fault', 0, 'err']], [[0, 'src', 0, 1]], [[30, 'fault', 0, None]],
                                [[0, 'fault', 0, 'skip']], [[10, 'src', 0, 7]], [[0, 'fault', 0, None]]]})
+        # an API write onto a DISABLED port is refused and changes nothing: a port whose expression was cleared keeps the
+        # (schedule-dependent) value written last and stays outside the model comparison (replay C01-257cba7080f1)
+        out.append({'ports': [dict(src, reg=5), dict(src, reg=7, rlat=[20], sample='begin', kind='virtual'),
+                              {'type': 'number', 'reg': 7, 'rlat': [20], 'wlat': [0],
+                               'expr': ['MAX', ['p', 1], ['lit', 3], ['p', 1]]}],
+                    'bursts': [[[0, 'expr', 1, ['ADD', ['p', 0], ['p', 0]]], [0, 'en', 2, False]],
+                               [[0, 'src', 0, 1], [0, 'en', 1, False]], [[233, 'expr', 1, None]], [[24, 'api', 1, 2]],
+                               [[7, 'en', 1, True], [104, 'src', 0, None]]]})
         # third defect (force-capture): expression port enabled while a (long) polling pass is past its turn
         out.append({'ports': [dict(src, reg=None),
                               {'type': 'number', 'reg': 3, 'rlat': [0], 'wlat': [0], 'expr': ['p', 0], 'enabled': False},
@@ -456,7 +464,11 @@ class C01(Prop):
         bursts = [[]] + list(case['bursts'])
         for b, (burst, ob) in enumerate(zip(bursts, obs['bursts'])):
             before_expr = dict(cur_expr)
+            # API writes the real hub refused (e.g. 400 port-disabled) change nothing: register and value stay as they were
+            api_applied = {e[1] for e in ob['log'] if e[0] == 'api' and e[2] in ('ok', 'accepted')}
             for op in burst:
+                if op[1] == 'api' and op[2] not in api_applied:
+                    continue
                 if op[1] == 'expr':
                     if op[3] is None:
                         cur_expr.pop(op[2], None)
